@@ -217,6 +217,13 @@ type Exec struct {
 	initPkg []*ssa.Package
 	frozenFrom [][2]int
 	curFrame *frame
+	locSuffix string
+	procs []procSpec
+	pr *procRun
+	procBase *frame
+	collectGo bool
+	tokens map[*Obj]int
+	ntokens int
 	monoClock int64
 	onces map[lockKey]bool
 	intrCache map[*ssa.Function]natFn
@@ -330,6 +337,10 @@ func (e *Exec) resetPath() {
 	e.tags = nil
 	e.claimedK = false
 	e.poolMode = 0
+	e.locSuffix = ""
+	e.tokens = nil
+	e.ntokens = 0
+	e.procs = nil
 	e.monoClock = 0
 	e.onces = nil
 	e.lockEvents = nil
@@ -689,6 +700,10 @@ func (e *Exec) branch(c *term.Term) bool {
 	if v, ok := e.known(c); ok {
 		return v
 	}
+	if e.pr != nil {
+		k := e.procEvent(&Event{Kind: "branch", Guard: term.String(c), Site: e.siteName("br")}, 2)
+		return k == 1
+	}
 	if e.pos < len(e.stack) {
 		d := &e.stack[e.pos]
 		e.pos++
@@ -786,6 +801,9 @@ func (e *Exec) pick(n int) int {
 func (e *Exec) concretize(t *term.Term) uint64 {
 	if t.Op == term.OConst {
 		return t.Val
+	}
+	if e.pr != nil {
+		e.unsupported("concretisation of a state-dependent value in process mode")
 	}
 	if e.pos < len(e.stack) {
 		d := &e.stack[e.pos]
